@@ -150,15 +150,17 @@ theorem roundScalar_spec (qi ql : Nat) (h1 : 1 < qi) (hqi : qi < W) (hql : 0 < q
   rw [pHalf_eq ql hql hqlW, BRedAdd_spec _ qi h1 (by omega)]
   exact u64sub_eq _ _ (Nat.le_of_lt (Nat.mod_lt _ (by omega))) hqi
 
-/-- row `i` of the (rewritten) input: the lazy value `q_i − (pHalf mod q_i) + 2q_i − x_i ∈ [2q_i+1, 3q_i]` -/
-theorem roundTmpLimb_spec (qi ql xi : Nat) (h1 : 1 < qi) (h3 : 3 * qi < W) (hql : 0 < ql)
-    (hqlW : ql < W) (hxi : xi < qi) :
-    roundTmpLimb qi ql xi = qi - half ql % qi + 2 * qi - xi := by
-  have hm : half ql % qi < qi := Nat.mod_lt _ (by omega)
-  unfold roundTmpLimb addscalarlazythenNegTwoModuluslazyvec_lane
-  simp only []
-  rw [roundScalar_spec qi ql h1 (by omega) hql hqlW, u64shl_one qi (by omega),
-    u64add_eq _ _ (by omega), u64sub_eq _ _ (by omega) (by omega)]
+/-- the centring scalar `MRed(q_i − pHalf mod q_i, RescaleConstant) = (pHalf mod q_i)·[q_ℓ⁻¹]_{q_i} mod q_i` -/
+theorem roundConst_spec (qi ql : Nat) (hodd : qi % 2 = 1) (h1 : 1 < qi) (h2 : 2 * qi ≤ W)
+    (hlt : invMod ql qi < qi) (hql : 0 < ql) (hqlW : ql < W) :
+    roundConst qi ql = (half ql % qi * invMod ql qi) % qi := by
+  have hq0 : 0 < qi := by omega
+  have hm : half ql % qi < qi := Nat.mod_lt _ hq0
+  unfold roundConst
+  rw [rescaleConst_spec qi ql hodd h1 h2 hlt, roundScalar_spec qi ql h1 (by unfold W at *; omega) hql hqlW]
+  apply mred_neg_core qi _ _ _ hodd h1 h2 hlt (by unfold W at *; omega)
+  have : qi - half ql % qi + half ql % qi = qi := by omega
+  rw [this]; exact Nat.mod_self _
 
 /-- `hinv`-free form of `divRoundLimb_spec`, for any already shifted last limb `xl' < ql`. -/
 theorem divRoundLimb_spec' (qi ql xi xl' : Nat) (hodd : qi % 2 = 1) (h1 : 1 < qi)
@@ -168,32 +170,28 @@ theorem divRoundLimb_spec' (qi ql xi xl' : Nat) (hodd : qi % 2 = 1) (h1 : 1 < qi
   have h2 : 2 * qi ≤ W := by omega
   have hq0 : 0 < qi := by omega
   have hql : 0 < ql := by omega
-  have hm : half ql % qi < qi := Nat.mod_lt _ hq0
-  unfold divRoundLimb addlazythenmulscalarmontgomeryvec_lane divFloorRes
-  rw [rescaleConst_spec qi ql hodd h1 h2 hlt,
-    roundTmpLimb_spec qi ql xi h1 (by omega) hql (by omega) hxi, u64add_eq _ _ (by omega)]
-  apply mred_neg_core qi _ _ _ hodd h1 h2 hlt (by omega)
-  generalize half ql % qi = h at *
+  unfold divRoundLimb addscalarvec_lane
+  rw [divFloorLimb_spec' qi ql xi xl' hodd h1 hlt hxi (by omega),
+    roundConst_spec qi ql hodd h1 h2 hlt hql (by omega)]
+  unfold divFloorRes
+  generalize half ql % qi = h
+  generalize invMod ql qi = c
   have hr : xl' % qi < qi := Nat.mod_lt _ hq0
-  have hdm := Nat.div_add_mod xl' qi
-  have hs : (xi + h) % qi < qi := Nat.mod_lt _ hq0
-  have hdm2 := Nat.div_add_mod (xi + h) qi
-  have hm1 : (xi + h) / qi ≤ 1 := by
-    have : (xi + h) / qi < 2 := Nat.div_lt_of_lt_mul (by omega)
-    omega
-  rcases Nat.le_one_iff_eq_zero_or_eq_one.mp hm1 with h0 | h0
-  · rw [h0] at hdm2
-    have : xl' + (qi - h + 2 * qi - xi) + ((xi + h) % qi + qi - xl' % qi) = qi * (xl' / qi + 4) := by
-      rw [Nat.mul_add]
-      generalize qi * (xl' / qi) = K at *
-      omega
-    rw [this]; exact Nat.mul_mod_right _ _
-  · rw [h0] at hdm2
-    have : xl' + (qi - h + 2 * qi - xi) + ((xi + h) % qi + qi - xl' % qi) = qi * (xl' / qi + 3) := by
-      rw [Nat.mul_add]
-      generalize qi * (xl' / qi) = K at *
-      omega
-    rw [this]; exact Nat.mul_mod_right _ _
+  generalize xl' % qi = r at hr
+  have ha : ((xi + qi - r) * c) % qi < qi := Nat.mod_lt _ hq0
+  have hk : (h * c) % qi < qi := Nat.mod_lt _ hq0
+  rw [u64add_eq _ _ (by unfold W at *; omega), CRed_spec _ qi hq0 (by omega) (by unfold W at *; omega),
+    ← Nat.add_mod]
+  have hdm := Nat.div_add_mod (xi + h) qi
+  apply mod_eq_of_add_mul_eq (k1 := 0) (k2 := (xi + h) / qi * c)
+  generalize (xi + h) / qi = d at *
+  generalize (xi + h) % qi = t at *
+  obtain ⟨u, hu⟩ : ∃ u, qi = u + r := ⟨qi - r, by omega⟩
+  have e1 : xi + qi - r = xi + u := by omega
+  have e2 : t + qi - r = t + u := by omega
+  rw [e1, e2]
+  have : xi + h = qi * d + t := by omega
+  nlinarith [this]
 
 /-- **one limb of `DivRoundByLastModulus`** = the floor formula applied to the residues of `x + (q_ℓ−1)/2`. -/
 theorem divRoundLimb_spec (qi ql xi xl : Nat) (hodd : qi % 2 = 1) (h1 : 1 < qi)
@@ -255,7 +253,7 @@ theorem divRound_rows (qs : List Nat) (level : Nat) (p0 : Rows) (X : List Nat)
     (hinv : ∀ i, i < level →
       (modulus qs level * invMod (modulus qs level) (modulus qs i)) % modulus qs i = 1)
     (hlt : ∀ i, i < level → invMod (modulus qs level) (modulus qs i) < modulus qs i) :
-    (divRound qs level p0).2 = (List.range level).map fun i => X.map fun x =>
+    divRound qs level p0 = (List.range level).map fun i => X.map fun x =>
       divFloorRes (modulus qs i) (invMod (modulus qs level) (modulus qs i))
         ((x % modulus qs i + half (modulus qs level) % modulus qs i) % modulus qs i)
         ((x % modulus qs level + half (modulus qs level)) % modulus qs level) := by
@@ -287,13 +285,9 @@ example :
     ∧ (∀ i, i < 1 → invMod (modulus qs 1) (modulus qs i) < modulus qs i) := by
   decide
 
-/-- The Go function `DivRoundByLastModulus(p0, p1)` REWRITES its input `p0`
-    (here: qs = [97, 193], level 1, p0 = [[5], [7]] becomes [[190], [103]]:
-    row 0 is the lazy value `1 + 2·97 − 5`, not even reduced modulo 97). -/
-theorem divRound_rewrites_input :
-    (divRound [97, 193] 1 [[5], [7]]).1 ≠ [[5], [7]] := by decide
-
-example : (divRound [97, 193] 1 [[5], [7]]).1 = [[190], [103]] := by decide
+-- test: the output of the twin on the example the unrepaired code rewrote ([[5],[7]] ↦ [[190],[103]])
+example : divRound [97, 193] 1 [[5], [7]] = [[(5 + 96 + 97 - (7 + 96) % 193 % 97) * invMod 193 97 % 97]] := by
+  decide +kernel
 
 #print axioms rescaleConst_spec
 #print axioms mred_neg_core
@@ -301,11 +295,10 @@ example : (divRound [97, 193] 1 [[5], [7]]).1 = [[190], [103]] := by decide
 #print axioms divFloorLimb_spec
 #print axioms roundLastLimb_spec
 #print axioms roundScalar_spec
-#print axioms roundTmpLimb_spec
+#print axioms roundConst_spec
 #print axioms divRoundLimb_spec'
 #print axioms divRoundLimb_spec
 #print axioms divFloor_rows
 #print axioms divRound_rows
-#print axioms divRound_rewrites_input
 
 end Lattigo.Scaling
